@@ -658,7 +658,24 @@ def rule_pu_channel(ctx):
             continue
         n += 1
         errp = [x for x in fc.params() if "error" in x]
-        ok = ast.unparse(kw.get("encoding")) == encp and (not errp or ast.unparse(kw.get("errors", ast.Constant(value=None))) == errp[0])
+        enc_kw = kw.get("encoding")
+        if isinstance(enc_kw, ast.Constant) and isinstance(enc_kw.value, str) and "sig" in enc_kw.value:
+            # the BOM case opened directly (`return open_as("utf-8-sig")`): allowed exactly under the BOM test
+            tests_ = [ast.unparse(cfg.nodes[tn].ast) for nid_ in cfg.node_of_expr(c) for (tn, lab) in cd.transitive(nid_)
+                      if cfg.nodes[tn].kind == "test" and lab.startswith("true")]
+            ctx.check(any("BOM" in t_ for t_ in tests_) and (not errp or ast.unparse(kw.get("errors", ast.Constant(value=None))) == errp[0]),
+                      "PU.CHANNEL", "reader.open_with_codecs#bom-open", fc, c,
+                      "the file is opened as %s only when it starts with a BOM" % enc_kw.value,
+                      "`%s` opens the file as %s without a BOM test" % (unparse(c), enc_kw.value))
+            continue
+        under_bom = [ast.unparse(cfg.nodes[tn].ast) for nid_ in cfg.node_of_expr(c) for (tn, lab) in cd.transitive(nid_)
+                     if cfg.nodes[tn].kind == "test" and lab.startswith("true") and "BOM" in ast.unparse(cfg.nodes[tn].ast)]
+        if under_bom:
+            ctx.bad("PU.CHANNEL", "reader.open_with_codecs#bom-open", fc, c, "under the BOM test the file is opened with `encoding=%s`, not "
+                    "utf-8-sig: the BOM stays in the text as U+FEFF glued to the first section title, so a BOM file and the same text "
+                    "given as a string read differently" % unparse(enc_kw))
+            continue
+        ok = ast.unparse(kw.get("encoding")) in aliases and (not errp or ast.unparse(kw.get("errors", ast.Constant(value=None))) == errp[0])
         nl = kw.get("newline")
         if nl is not None and not (isinstance(nl, ast.Constant) and nl.value is None):
             ok = False
@@ -938,6 +955,14 @@ def rule_sentinel(ctx):
     if n == 0:
         ctx.undecided("LF.SENTINEL", LF + "#sentinel", None, cls.node, "no value argument with a `False` = 'not given' default is stored "
                       "directly into an attribute (the editors keep their updates in another form)")
+    uc = cls.methods.get("update_curve")
+    if uc is not None and sum(1 for i in ctx.instances if i.rule == "LF.SENTINEL" and i.site.startswith(uc.qual + "#")) < 2:
+        # update_curve keeps its optional arguments in another form (a defaults table updated with **kwargs ...): the identity tests
+        # on plain locals that this rule reads are not there
+        ctx.undecided("LF.SENTINEL", uc.qual + "#sentinel", uc, uc.node, "update_curve does not fetch its optional arguments into plain locals "
+                      "with a False default: how 'not given' is told from '' / 0 is not decided in this form")
+        ctx.floor("LF.SENTINEL", min(2, n))
+        return
     ctx.floor("LF.SENTINEL", 2)
 
 
@@ -1113,3 +1138,27 @@ def rule_pu_channel_table(ctx):
     ctx.check(not problems, "PU.CHANNEL", site, fo, test, "a string with more than one line is content, a single line is a file name "
               "(%d probe strings)" % n_eval, "; ".join(problems) + ": the same text read through StringIO or from a file gives a result, "
               "as a string it raises FileNotFoundError")
+
+
+def rule_editors_pure(ctx):
+    """LF.NO-MODULE-STATE: the curve editors change the LASFile they are called on and nothing else - in particular no module-level
+    object (a defaults table updated in place makes the arguments of one call the defaults of the next, on every LASFile)."""
+    p = ctx.p
+    r = get_resolver(p)
+    ea = get_effects(p)
+    cls = p.cls(LF)
+    roots = [cls.methods[m] for m in MUTATORS if m in cls.methods]
+    clos = r.closure(roots)
+    n = 0
+    for q, fi in sorted(clos.items()):
+        if fi.module.name not in ("las", "las_items"):
+            continue
+        ws = _global_writes(p, ea, fi)
+        n += 1
+        site = "%s#module-state" % q
+        if ws:
+            ctx.bad("LF.NO-MODULE-STATE", site, fi, ws[0][0], "%s (reachable from the curve editors) %s: what one call passes in is remembered and "
+                    "applied by later calls, also on other LASFile objects" % (q, ws[0][1]))
+        else:
+            ctx.ok("LF.NO-MODULE-STATE", site, fi, fi.node, "writes no module-level state", nontrivial=False)
+    ctx.floor("LF.NO-MODULE-STATE", 5)
